@@ -66,6 +66,7 @@ type Params struct {
 	Debug       bool
 	SameCfg     *world.Cfg // when set every factory uses this configuration
 	NoCacheFrac int        // percentage of worlds whose factories never cache
+	LatencyPct  int        // per-mille of external calls that take virtual time
 }
 
 type hist struct {
@@ -86,6 +87,7 @@ type hist struct {
 	tap       *probe.LogTap
 
 	c3      *c03state
+	slack   time.Duration // added to every time bound when call latencies are injected
 	scope   string // cache scope of the session performing the current operation
 	msMark  int
 	kmsMark int
@@ -357,7 +359,7 @@ func (h *hist) oracleC04(s *sess, rc *rec, drr *appencryption.DataRowRecord, t t
 		return
 	}
 	skExp := time.Unix(row.ParentKeyMeta.Created, 0).Add(E)
-	bound := R // the property's bound: one revoke-check interval
+	bound := R + h.slack // the property's bound: one revoke-check interval
 	if t.After(skExp) {
 		h.r.Count("c04_records_under_expired_sk_within_bound", 1)
 	}
@@ -403,7 +405,7 @@ func (h *hist) oracleC05(s *sess, rc *rec, drr *appencryption.DataRowRecord, t t
 		return
 	}
 	h.r.Count("c05_records_checked", 1)
-	ikBound := cfg.Revoke // the property's bounds: one interval for the IK itself, two for its parent SK
+	ikBound := cfg.Revoke + h.slack // the property's bounds: one interval for the IK itself, two for its parent SK
 	if tr, ok := h.flipTime(ikid, ikc); ok {
 		creatable := stamp > ikc
 		// the interval runs from the moment a replacement became creatable (next precision window), if later
@@ -426,7 +428,7 @@ func (h *hist) oracleC05(s *sess, rc *rec, drr *appencryption.DataRowRecord, t t
 	if row.ParentKeyMeta != nil {
 		skid, skc := row.ParentKeyMeta.ID, row.ParentKeyMeta.Created
 		if tr, ok := h.flipTime(skid, skc); ok {
-			bound := 2 * cfg.Revoke
+			bound := 2*cfg.Revoke + h.slack
 			creatable := stamp > skc && stamp > ikc
 			newest := skc
 			if ikc > newest {
